@@ -80,6 +80,53 @@ rs_harness!(c17_t_kk_r_end, 5, 3, Pat::KK, false, 2);
 rs_harness!(c17_t_x_r_end, 5, 3, Pat::X, false, 1);
 rs_harness!(c17_t_n_r_end, 5, 3, Pat::N, false, 1);
 
+/// A party that already knows the peer's static key (pre-shared or read earlier) is handed an arbitrary message of `len`
+/// bytes at a point where it has to read: whenever that read fails, the reported remote static key is still the peer's
+/// full key - in the handshake object and, after the genuine rest of the handshake, nothing else can have changed it
+/// (C07 decides that the rest of the state is untouched; this harness pins the `rs` enabled flag, which C07's state
+/// comparison does not see when the key bytes themselves are unchanged).
+pub fn remote_static_survives_failed_read<const PL: usize, const DL: usize>(pat: Pat, initiator: bool, k: usize, len: usize) {
+    let pro: [u8; 2] = kani::any();
+    let mut pair = rm_pair::<Toy<8, PL, DL>>(pat, 0, NAME.as_bytes(), &pro);
+    rm_advance::<Toy<8, PL, DL>>(&mut pair, k);
+    let rm = if initiator { pair.i } else { pair.r };
+    let peer = if initiator { pair.r } else { pair.i };
+    assert!(rm.has_rs, "harness: this party must already know the peer's static key");
+    let mut hs = snow_from_rm_a::<8, PL, DL>(&rm, NAME, false);
+    let msg: [u8; 40] = kani::any();
+    let mut out = [0u8; 40];
+    let r = hs.read_message(&msg[..len], &mut out);
+    kani::cover!(r.is_err(), "C17 failed read reachable");
+    if r.is_err() {
+        let got = hs.get_remote_static();
+        assert!(got.is_some(), "C17: a failed read made the known remote static key disappear");
+        let g = got.unwrap();
+        assert!(g.len() == PL, "C17: reported remote static key has the wrong length after a failed read");
+        let mut j = 0;
+        while j < PL {
+            assert!(g[j] == peer.s_pub[j], "C17: reported remote static key changed by a failed read");
+            j += 1;
+        }
+    }
+}
+macro_rules! rs_failed_read_harness {
+    ($name:ident, $pl:expr, $dl:expr, $pat:expr, $ini:expr, $k:expr, $len:expr) => {
+        #[kani::proof]
+        #[kani::unwind(50)]
+        pub fn $name() {
+            remote_static_survives_failed_read::<$pl, $dl>($pat, $ini, $k, $len);
+        }
+    };
+}
+// IK initiator reading message 2 (rs pre-shared): whole-length garbage (tag check fails) and a message cut inside `e`
+rs_failed_read_harness!(c17_q_failed_read_ik_i_k1_full, 5, 3, Pat::IK, true, 1, 22);
+rs_failed_read_harness!(c17_q_failed_read_ik_i_k1_short, 5, 3, Pat::IK, true, 1, 2);
+// KK responder reading message 1 (rs pre-shared); XX initiator reading nothing further is not applicable (3 messages:
+// the responder reads message 3 before it knows rs) - XK1-style deferred patterns: thorough
+rs_failed_read_harness!(c17_q_failed_read_kk_r_k0_full, 5, 3, Pat::KK, false, 0, 22);
+rs_failed_read_harness!(c17_t_failed_read_kk_i_k1_full, 5, 3, Pat::KK, true, 1, 22);
+rs_failed_read_harness!(c17_t_failed_read_nk_i_k1_short, 5, 3, Pat::NK, true, 1, 3);
+
 /// A message carrying an encrypted static key is altered inside its encrypted part (ideal AEAD, two real endpoints,
 /// symbolic position / value / truncation): the read fails, and whatever is reported as the remote static key
 /// afterwards is the sender's true key or nothing - the key becomes available only through a successful read.
